@@ -71,5 +71,25 @@ ModuloRange == (call.name = "modulo" /\ BothNum /\ Dec) =>
 X == <<120>>
 Prog == << [t |-> "obj", e |-> [t |-> "filter", e |-> [t |-> "var", name |-> X], name |-> call.name,
                                 args |-> [i \in 1..Len(call.args) |-> [t |-> "lit", v |-> call.args[i]]]]] >>
-EmitCase == PrintT(ToJson([id |-> ToString(xi) \o "-" \o op \o "-" \o ToString(ai), kind |-> "render", f |-> call.name, prog |-> Prog, env |-> << <<X, x>> >>]))
+\* the same call with its arguments (and its receiver) held in variables, in other Go representations: a Drop, a
+\* pointer, another numeric width - an argument is evaluated in the current bindings like any expression
+ArgName(i) == <<97, 48 + i>>         \* a1 a2
+ProgV == << [t |-> "obj", e |-> [t |-> "filter", e |-> [t |-> "var", name |-> X], name |-> call.name,
+                                 args |-> [i \in 1..Len(call.args) |-> [t |-> "var", name |-> ArgName(i)]]]] >>
+HintFor(v, n) ==
+  CASE v.k = "int" -> IF v.v >= 0 /\ v.v < 128 THEN <<"uint8", "int64", "drop", "ptr", "uint32", "int16">>[(n % 6) + 1]
+                      ELSE IF v.v < 0 /\ v.v > 0 - 128 THEN <<"int8", "int64", "drop", "int32">>[(n % 4) + 1]
+                      ELSE <<"int64", "drop", "ptr">>[(n % 3) + 1]
+    [] v.k = "flt" -> <<"drop", "ptr", "float32">>[(n % 3) + 1]
+    [] v.k = "str" -> <<"drop", "ptr">>[(n % 2) + 1]
+    [] OTHER -> "drop"
+\* (float32 only where the value is exactly representable: quarters)
+Exact32(v) == v.k # "flt" \/ v.d \in {1, 2, 4}
+ReprV == [p \in {"x"} \cup {"a" \o ToString(i) : i \in 1..Len(call.args)} |->
+            IF p = "x" THEN (IF Exact32(x) THEN HintFor(x, xi + ai) ELSE "drop")
+            ELSE LET i == IF p = "a1" THEN 1 ELSE 2 IN IF Exact32(call.args[i]) THEN HintFor(call.args[i], xi + ai + i) ELSE "drop"]
+EmitCase ==
+  /\ PrintT(ToJson([id |-> ToString(xi) \o "-" \o op \o "-" \o ToString(ai), kind |-> "render", f |-> call.name, prog |-> Prog, env |-> << <<X, x>> >>]))
+  /\ PrintT(ToJson([id |-> "v" \o ToString(xi) \o "-" \o op \o "-" \o ToString(ai), kind |-> "render", f |-> call.name, prog |-> ProgV,
+                    env |-> << <<X, x>> >> \o [i \in 1..Len(call.args) |-> <<ArgName(i), call.args[i]>>], repr |-> ReprV]))
 =============================================================================
